@@ -8,3 +8,8 @@ func init() {
 
 // one symbolic ReceiveMessage from an arbitrary invariant-satisfying state (see receive.go)
 func Harness_C12_Receive() { receiveLemma("C12", false) }
+
+// the pause obligations of a receive keep holding on a fresh keeper instance after a different instance
+// successfully executed transaction `before` in the same process (nothing the pause decision reads is
+// package-level memory another transaction can have changed)
+func c12receiveAfter(before int) { receiveLemmaN("C12", false, 1, before) }
